@@ -33,6 +33,21 @@ CHECKS = {
             "All operation sequences of the depth bound over overlapping insert batches, predicate deletes, forced compaction and reopen are executed; after every step the table must equal the model, DML counts must match, and the final ordered scan must be sorted.",
             "Bounded: depth 4 (quick) / 5 (thorough); one table (pk / no pk); compaction driven through the real compactor by a paused clock.",
             "DESIGN.md §4 C07"),
+    "C08": ("E4-gate-scheduler", "model_checking",
+            "stateless model checking of the implementation: exhaustive exploration of task interleavings at instrumented yield points under a controlled scheduler, preemption-bounded (CHESS-style), with a per-state invariant",
+            "For each reader/writer/compactor/vacuum workload every schedule of the real tokio tasks at the instrumented gates within the preemption bound is executed on the real engine (exact quiescence detection, paused clock, replay-checked determinism). At every quiescent state the pinned-version/file invariant is evaluated; at the end each reader's rows are compared with the table as of its pin, derived from the schedule.",
+            "Bounded: 8 workloads, 2-3 actors, preemption bound 1-2 (quick) / 2-3 (thorough), per-shard schedule cap reported when hit; interleavings only at gates on a current-thread runtime (code between gates atomic); no weak-memory or data-race coverage.",
+            "DESIGN.md §3 E4, §4 C08"),
+    "C09": ("E4-gate-scheduler", "model_checking",
+            "stateless model checking of the implementation: exhaustive preemption-bounded exploration of client/compactor interleavings at instrumented yield points, final-state oracle against a reference model",
+            "For each of 16 client workloads on two tables with two row-sets each, every schedule within the preemption bound is executed on the real engine; final and reopened table contents must equal initial + acknowledged inserts - acknowledged deletes; no panic or deadlock.",
+            "Bounded: 1-2 sessions x 1-2 statements, 1-2 compactor passes, preemption bound 1-2 (quick) / 2-3 (thorough); commutative workloads so the expected state is unique; statements that fail are required to have no effect.",
+            "DESIGN.md §3 E4, §4 C09"),
+    "C10": ("E4-gate-scheduler", "model_checking",
+            "stateless model checking of the implementation (preemption-bounded schedule exploration at yield points) with a brute-force serializability oracle over a reference model",
+            "For each multi-session workload every schedule within the preemption bound is executed; the acknowledged statements must admit a serial order (respecting session order) that reproduces every observed result and the final tables on the reference model; no session or task panics, no deadlock, shutdown and reopen succeed and agree.",
+            "Bounded: 2 sessions (quick) / up to 3 (thorough), <= 2 statements each, preemption bound 2/3. The clause about free-running multi-threaded runs is NOT decided (gate interleavings on a current-thread runtime only).",
+            "DESIGN.md §3 E4, §4 C10"),
     "C12": ("E2-history-explorer", "model_checking",
             "bounded exhaustive history exploration on the real engine (all op sequences up to depth d x all ORDER BY/LIMIT/OFFSET queries), relational oracle",
             "Every population history up to the depth bound, on every engine/layout of the configuration list, is executed on the real engine and every ORDER BY/LIMIT/OFFSET query of the small query space is judged by the relations the property states (permutation, sortedness, slice, count, membership). Complete within the stated bounds; nothing is sampled.",
